@@ -105,6 +105,48 @@ def l1_twins(ctx):
     ctx.cov["traces_validated_against_impl"] += len(progs)
 
 
+def reply_table_orders(ctx):
+    """acceptance of a reply-handler table must not depend on the order in which its methods are declared:
+    every 2-method table in both orders, 3-method tables in all six orders (sampled in the quick tier)"""
+    import itertools
+    rng = random.Random(ctx.seed * 31 + 14)
+    tables = C18.small_tables(ctx)
+    groups = {}
+    for ct, combo in tables:
+        if len(combo) == 2:
+            groups.setdefault(tuple(sorted(map(repr, combo))), []).append((ct, combo))
+    tri = [(ct, combo) for ct, combo in tables if len(combo) == 3]
+    rng.shuffle(tri)
+    extra = []
+    for ct, combo in tri[: ctx.size(120, 3000)]:
+        ms = [m for m in ct["methods"] if m["msg"]["kind"] == "reply"]
+        rest = [m for m in ct["methods"] if m["msg"]["kind"] != "reply"]
+        for perm in itertools.permutations(range(3)):
+            t = dict(ct, methods=rest + [ms[i] for i in perm])
+            groups.setdefault(("tri", repr(combo)), []).append((t, tuple(combo[i] for i in perm)))
+    progs = []
+    index = []
+    for key, members in groups.items():
+        for j, (ct, combo) in enumerate(members):
+            pid = "o%d_%d" % (len(index), j)
+            progs.append((pid, "contract", "", C18.render_contract(ct)))
+        index.append((key, members, [p[0] for p in progs[-len(members):]]))
+    res = l1.expand(progs, "C14o", level="status")
+    src = {p[0]: p[3] for p in progs}
+    bad = 0
+    for key, members, pids in index:
+        sts = ["clean" if res[p]["status"] == "clean" else "rejected" for p in pids]
+        if len(set(sts)) > 1:
+            bad += 1
+            a = pids[sts.index("clean")]
+            b = pids[sts.index("rejected")]
+            ctx.violation("order-dependent-acceptance", "a reply-handler table is accepted in one declaration order and rejected in another",
+                          {"accepted_order": src[a], "rejected_order": src[b]})
+    ctx.add_stream("L1-reply-table-orders", len(progs), len(index), samples=[progs[0][3]], tables=len(index), oracle_failures=bad,
+                   exhaustive_two_method_tables=True)
+    ctx.cov["traces_validated_against_impl"] += len(progs)
+
+
 def l2_twins(ctx):
     rng = random.Random(ctx.seed * 29 + 41)
     n = ctx.size(10, 120)
@@ -207,6 +249,7 @@ def run(ctx):
     translate.regenerate()
     c.prove(ctx, ["Sylvia.Thm.C14"], THEOREMS)
     l1_twins(ctx)
+    reply_table_orders(ctx)
     l2_twins(ctx)
     ctx.cov["rule"] = ("every generated program (valid, and one-edit-invalid) against two random reorderings of its handler methods, interface / override attributes: acceptance, generated "
                        "message types as sets, routing lists, entry points (L1); compiled programs against a reordered twin: routing, dispatch, unknown-name errors, reply "
